@@ -52,6 +52,14 @@ pub fn c12_configs(tier: Tier) -> Vec<LCfg> {
             }
         }
     }
+    // extreme durations the builders accept
+    for (name, timeout) in [("connect-timeout-max", Duration::MAX), ("connect-timeout-zero", Duration::ZERO)] {
+        let mut c = LCfg::base(name, LoopMode::Tokio);
+        c.connect_timeout = timeout;
+        c.requests = vec![Req::Start, Req::Stop, Req::Close];
+        c.max_requests = 2; c.max_attempts = 2; c.budget = 2; c.max_depth = 16;
+        out.push(c);
+    }
     out
 }
 
